@@ -650,6 +650,25 @@ class Runner:
             return ('Key.set_default_cert(<never stored>)',
                     (lambda: w.kc[idname][Name.from_bytes(km.name)].set_default_cert(
                         Name.from_bytes(km.name) + Name.from_str('/nobody/v=1'))), None, lambda ret: None)
+        if verb == 'setdef_foreign':
+            # set_default_* on ONE owner with a name that is stored - in ANOTHER owner's scope: neither scope changes its default
+            what = parts[2]
+            other = m.ids.get('b' if letter == 'a' else 'a')
+            if idm is None or other is None:
+                return None
+            if what == 'key':
+                okm = next((k for k in reversed(other.keys) if k.name != other.default), None)
+                if okm is None:
+                    return None
+                return (f'Identity({IDN[letter]}).set_default_key({Name.to_str(okm.name)}: a key of the other identity)',
+                        (lambda: w.kc[idname].set_default_key(Name.from_bytes(okm.name))), None, lambda ret: None)
+            km = default_key()
+            okm = next((k for k in other.keys if k.name == other.default), None)
+            ocm = next((c for c in reversed(okm.certs) if c.name != okm.default), None) if okm else None
+            if km is None or ocm is None:
+                return None
+            return (f'Key({Name.to_str(km.name)}).set_default_cert({Name.to_str(ocm.name)}: a certificate of another key)',
+                    (lambda: w.kc[idname][Name.from_bytes(km.name)].set_default_cert(Name.from_bytes(ocm.name))), None, lambda ret: None)
         if verb in ('delcert', 'keydelcert'):
             which = parts[2] if len(parts) > 2 else 'default'
             km = default_key()
@@ -1021,7 +1040,8 @@ def run_case(case):
 BASIC = ('touch:a', 'touch:b', 'newkey:a', 'newkey:b', 'idnewkey:a', 'import:a', 'import:b', 'setdef_id:a', 'setdef_id:b',
          'setdef_key:a', 'setdef_cert:a', 'delcert:a:default', 'delcert:a:other', 'keydelcert:a:other', 'delkey:a:default',
          'delkey:a:other', 'iddelkey:b:default', 'delid:a', 'delid:b', 'reopen',
-         'setdef_stale:a:id', 'setdef_stale:a:key', 'setdef_stale:a:cert', 'newkey_dup:a')
+         'setdef_stale:a:id', 'setdef_stale:a:key', 'setdef_stale:a:cert', 'newkey_dup:a', 'setdef_foreign:a:key',
+         'setdef_foreign:a:cert')
 SIGNS = ('sign:default', 'sign:id:a', 'sign:idobj:b', 'sign:key:a', 'sign:keyobj:a', 'sign:keyloc:a', 'sign:keyloc2', 'sign:cert:a',
          'sign:certobj:a', 'sign:certname:a', 'sign:deadcert', 'sign:digest', 'sign:nosig', 'sign:id:b', 'sign:key:b')
 ALPHABET = BASIC + SIGNS
@@ -1052,6 +1072,9 @@ DIRECTED = (
     ['touch:a', 'touch:b', 'setdef_stale:a:id', 'sign:default', 'reopen', 'sign:default'],
     ['touch:a', 'newkey:a', 'setdef_stale:a:key', 'sign:id:a', 'reopen', 'sign:id:a'],
     ['touch:a', 'import:a', 'setdef_stale:a:cert', 'sign:key:a', 'reopen', 'sign:key:a'],
+    ['touch:a', 'touch:b', 'newkey:b', 'setdef_foreign:a:key', 'sign:id:b', 'sign:id:a', 'reopen', 'sign:id:b'],
+    ['touch:a', 'touch:b', 'import:b', 'setdef_foreign:a:cert', 'sign:key:b', 'sign:key:a', 'reopen', 'sign:key:b'],
+    ['touch:b', 'newkey:b', 'touch:a', 'newkey:a', 'setdef_foreign:a:key', 'setdef_foreign:b:key', 'sign:id:a', 'sign:id:b'],
 )
 
 
